@@ -6,7 +6,7 @@ from .sessioncheck import SessionCheck
 class C13(SessionCheck):
     pid = "C13"
     inst_kwargs = dict(allow_empty_jobs=True, big=True)
-    gen_kwargs = dict(p_invalid=0.08, p_query=0.05, p_reset=0.06, p_snapshot=1.0, p_obs=0.0,
+    gen_kwargs = dict(p_invalid=0.08, p_query=0.05, p_reset=0.06, p_snapshot=1.0, p_obs=0.06, obs_kinds=(2, 3),
                       start_observers_choices=[2, 3, 2, 3, 0], p_env=0.35)
     assumptions = ["valid instance: durations >= 0",
                    "reward observers subscribed at the initial state (constructed before the first dispatch) - the "
@@ -50,22 +50,67 @@ class C13(SessionCheck):
         io = obs["outs"]
         fails = self.tie_failures(case, io, model_out)
         evs = case["events"]
-        # per snapshot: sums against the from-scratch objective on the implementation's own rows
-        for (i, o), want in zip(self.snapshots(case, io), tracking):
-            nsched, mk, idle = want[1], want[2], want[3]
-            for idx, ob in enumerate(o[5]):
-                if idx not in o[4]:
-                    continue
-                if ob[0] == 2:
-                    rw = ob[1]
-                    self.sum_checks(fails, i, "makespan", rw, -mk, nsched)
-                    if ob[2] != mk:
-                        fails.append(Failure("oracle", "makespan:current", f"snapshot #{i}: current_makespan={ob[2]} "
-                                             f"but the schedule's makespan is {mk}"))
-                    if ob[3] != (rw[-1] if rw else 0):
-                        fails.append(Failure("oracle", "last-reward", f"snapshot #{i}: last_reward != last emitted"))
-                if ob[0] == 3:
-                    self.sum_checks(fails, i, "idle", ob[1], -idle, nsched)
+        # which reward observers are, BY THE SCRIPT, subscribed exactly once since the start of the current episode
+        # (the sums are stated for those); tracked from the events, not from the implementation's subscriber list
+        count = {}          # idx -> number of subscriptions the script asked for
+        clean = {}          # idx -> subscribed once, before the first dispatch of the episode
+        fresh = {}          # idx -> holds no reward from an earlier episode / an earlier subscription
+        nobj = 0
+        started = False     # an accepted dispatch happened in the current episode
+        snap_k = 0
+        for i, (ev, o) in enumerate(zip(evs, io)):
+            t = ev[0]
+            ok = bool(o) and o[0] == 0
+            if t == 3 and ok:
+                idx = o[1]
+                nobj = max(nobj, idx + 1)
+                nosub = len(ev) > 2 and ev[2] == 1
+                count[idx] = 0 if nosub else 1
+                fresh[idx] = True
+                clean[idx] = (not started) and not nosub
+            elif t == 6 and ok:
+                idx = o[1]
+                if idx >= nobj:
+                    nobj = idx + 1
+                    count[idx] = 1
+                    fresh[idx] = True
+                    clean[idx] = not started
+            elif t == 5 and ok:
+                idx = ev[1]
+                count[idx] = count.get(idx, 0) + 1
+                clean[idx] = (not started) and count[idx] == 1 and fresh.get(idx, False)
+            elif t == 4 and ok:
+                idx = ev[1]
+                count[idx] = max(0, count.get(idx, 0) - 1)
+                clean[idx] = False
+            elif t in (0, 8) and ok:
+                started = True
+                for idx in count:
+                    if count[idx] > 0:
+                        fresh[idx] = False
+            elif t == 2 and ok:
+                started = False
+                for idx in count:
+                    if count[idx] > 0:
+                        fresh[idx] = True
+                    clean[idx] = count[idx] == 1
+            elif t == 7:
+                want = tracking[snap_k]
+                snap_k += 1
+                nsched, mk, idle = want[1], want[2], want[3]
+                for idx, ob in enumerate(o[5]):
+                    if not clean.get(idx):
+                        continue
+                    if ob[0] == 2:
+                        rw = ob[1]
+                        self.sum_checks(fails, i, "makespan", rw, -mk, nsched)
+                        if ob[2] != mk:
+                            fails.append(Failure("oracle", "makespan:current", f"snapshot #{i}: current_makespan="
+                                                 f"{ob[2]} but the schedule's makespan is {mk}"))
+                        if ob[3] != (rw[-1] if rw else 0):
+                            fails.append(Failure("oracle", "last-reward", f"snapshot #{i}: last_reward != last emitted"))
+                    if ob[0] == 3:
+                        self.sum_checks(fails, i, "idle", ob[1], -idle, nsched)
         # environment: reward returned by step = reward emitted for that step; done iff complete
         k = 0
         n_ok = 0
